@@ -300,6 +300,7 @@ ROUTER_S = [
 ROUTER_FAULTS_S = [
     _r("s_router_faults_n2_cid1", Q, "2 requestors, reply {cid:1}; any sink operation may fail"),
     _r("s_router_faults_n2_cid0", Q, "2 requestors, reply {cid:0}; any sink operation may fail"),
+    _r("s_router_faults_n2_r2", Q, "2 requestors, two rounds, replies {cid:1}; any sink operation may fail in either round", timeout=1800, mem_gb=14),
 ]
 
 NOTE_T = "Layer T runs the router's SOURCE FILE verbatim (#[path] include of /repo/server/src/topic/pubsub.rs) against environment models: futures' mpsc channel, tokio-stream's StreamMap and an opaque error type are third-party/environment; FanoutMany is replaced by a contract model whose every clause is asserted on the real FanoutMany by the Layer-S obligations (fanout::*). Every ready/pending/arrival/failure outcome is a solver variable; wake-ups are modelled by armed gates. Trusted: Kani/CBMC/cadical, the K+ driver, the models' fidelity to the documented behaviour of futures mpsc and tokio-stream 0.1. Counterexamples are replayed natively before being reported."
